@@ -109,17 +109,16 @@ func (o *StringOperation) EW(left Operand, right Operand) (bool, error) {
 }
 
 func (o *StringOperation) IN(left Operand, right Operand) (bool, error) {
-	leftVal, err := o.getString(left)
-	if err != nil {
-		return false, err
-	}
-
 	rightVal, ok := right.([]string)
 	if !ok {
 		return ok, newErrInvalidOperand(right, rightVal)
 	}
 	for _, val := range rightVal {
-		if leftVal == val {
+		found, err := o.EQ(left, val)
+		if err != nil {
+			return false, err
+		}
+		if found {
 			return true, nil
 		}
 	}
